@@ -6,6 +6,7 @@ os.chdir(VERIF)
 os.makedirs('.work/scratch', exist_ok=True)
 steps = [
     ['python3', 'tools/build.py', 'san', '--harness', 'worker'],
+    ['python3', 'tools/build.py', 'fuzz', '--harness', 'fuzz_json'],
 ]
 for s in steps:
     print('+', ' '.join(s), flush=True)
